@@ -318,7 +318,7 @@ package matcher
 // tables are never written while parsing).  A matcher always runs on a fresh, empty context (fsm.apply), so its
 // bindings are given as the whole content of the two maps afterwards.
 //@ pure static func tableWF(idx map[string]*container.Container) bool = idx != nil && (forall n string :: (n in idx) ==> idx[n] != nil)
-//@ pure static func matcherWF(m Matcher) bool =
+//@ pure static opaque func matcherWF(m Matcher) bool =
 //@     isType(m, "*arg") ? asType(m, "*arg") != nil :
 //@     isType(m, "*opt") ? (asType(m, "*opt") != nil && asType(m, "*opt").theOne != nil && tableWF(asType(m, "*opt").index)) :
 //@     isType(m, "*options") ? (asType(m, "*options") != nil && tableWF(asType(m, "*options").index) &&
@@ -327,25 +327,25 @@ package matcher
 //@ pure static func optK(o *opt, args []string) int = scanPos(args, 0, domOf(o.index), valOf(o.index), fieldHeap(o.theOne.Value), o.theOne)
 //@ pure static func grpOK(om *options, args []string) bool =
 //@     tryOK(om.options, args, domOf(om.index), valOf(om.index), fieldHeap(om.options[0].Value), fieldHeap(om.options[0].ValueSetFromEnv), noKeys("*container.Container"))
-//@ pure static func mOK(m Matcher, args []string, rej bool) bool =
+//@ pure static opaque func mOK(m Matcher, args []string, rej bool) bool =
 //@     isType(m, "*arg") ? (len(args) > 0 && (rej || !hasPrefix(args[0], "-") || args[0] == "-")) :
 //@     isType(m, "*opt") ? (((len(args) == 0 || rej) || optK(asType(m, "*opt"), args) < 0) ? asType(m, "*opt").theOne.ValueSetFromEnv : true) :
 //@     isType(m, "*options") ? (!rej && grpOK(asType(m, "*options"), args)) : true
-//@ pure static func mRem(m Matcher, args []string, rej bool) []string =
+//@ pure static opaque func mRem(m Matcher, args []string, rej bool) []string =
 //@     isType(m, "*arg") ? args[1:] :
 //@     isType(m, "*opt") ? (((len(args) == 0 || rej) || optK(asType(m, "*opt"), args) < 0) ? args :
 //@         tokRem(args, optK(asType(m, "*opt"), args), domOf(asType(m, "*opt").index), valOf(asType(m, "*opt").index), fieldHeap(asType(m, "*opt").theOne.Value), asType(m, "*opt").theOne)) :
 //@     isType(m, "*options") ? grpRem(asType(m, "*options").options, args, domOf(asType(m, "*options").index), valOf(asType(m, "*options").index),
 //@         fieldHeap(asType(m, "*options").options[0].Value), fieldHeap(asType(m, "*options").options[0].ValueSetFromEnv), noKeys("*container.Container")) : args
 //@ pure func mRej(m Matcher, rej bool) bool = rej || isType(m, "optsEnd")
-//@ pure static func mArgsD(m Matcher) set[*container.Container] = isType(m, "*arg") ? store(noKeys("*container.Container"), asType(m, "*arg").arg, true) : noKeys("*container.Container")
-//@ pure static func mArgsV(m Matcher, args []string) array[*container.Container][]string =
+//@ pure static opaque func mArgsD(m Matcher) set[*container.Container] = isType(m, "*arg") ? store(noKeys("*container.Container"), asType(m, "*arg").arg, true) : noKeys("*container.Container")
+//@ pure static opaque func mArgsV(m Matcher, args []string) array[*container.Container][]string =
 //@     isType(m, "*arg") ? store(constArray("*container.Container", nilOf("[]string")), asType(m, "*arg").arg, seq(args[0])) : constArray("*container.Container", nilOf("[]string"))
-//@ pure static func mOptsD(m Matcher, args []string, rej bool) set[*container.Container] =
+//@ pure static opaque func mOptsD(m Matcher, args []string, rej bool) set[*container.Container] =
 //@     isType(m, "*opt") ? (((len(args) == 0 || rej) || optK(asType(m, "*opt"), args) < 0) ? noKeys("*container.Container") : store(noKeys("*container.Container"), asType(m, "*opt").theOne, true)) :
 //@     isType(m, "*options") ? grpOD(asType(m, "*options").options, args, domOf(asType(m, "*options").index), valOf(asType(m, "*options").index),
 //@         fieldHeap(asType(m, "*options").options[0].Value), fieldHeap(asType(m, "*options").options[0].ValueSetFromEnv), noKeys("*container.Container"), noKeys("*container.Container")) : noKeys("*container.Container")
-//@ pure static func mOptsV(m Matcher, args []string, rej bool) array[*container.Container][]string =
+//@ pure static opaque func mOptsV(m Matcher, args []string, rej bool) array[*container.Container][]string =
 //@     isType(m, "*opt") ? (((len(args) == 0 || rej) || optK(asType(m, "*opt"), args) < 0) ? constArray("*container.Container", nilOf("[]string")) :
 //@         store(constArray("*container.Container", nilOf("[]string")), asType(m, "*opt").theOne,
 //@               seq(tokVal(args, optK(asType(m, "*opt"), args), domOf(asType(m, "*opt").index), valOf(asType(m, "*opt").index), fieldHeap(asType(m, "*opt").theOne.Value), asType(m, "*opt").theOne)))) :
@@ -354,6 +354,7 @@ package matcher
 //@     constArray("*container.Container", nilOf("[]string"))
 
 //@ func Matcher.Match(args, c)
+//@   reveal mOK, mRem, mArgsD, mArgsV, mOptsD, mOptsV, matcherWF
 //@   requires wf: matcherWF(this)
 //@   requires ctx: c != nil && c.Args != nil && c.Opts != nil && c.ExcludedOpts != nil && c.Args != c.Opts
 //@   requires fresh-ctx: domOf(c.Args) == noKeys("*container.Container") && domOf(c.Opts) == noKeys("*container.Container") && domOf(c.ExcludedOpts) == noKeys("*container.Container") &&
